@@ -9,6 +9,9 @@ import random
 from .. import core, conn, activation
 
 
+LAYOUTS = ["ar", "bg", "zh", "cs", "da", "de", "el", "us", "es", "fi", "fr", "he", "hu", "is", "it", "ja", "ko", "nl", "no"]
+
+
 def sweep_plans(base, rng, tier):
     """names / credentials of every class x sizes, on top of a TLC-drawn plan"""
     classes = {
@@ -21,6 +24,9 @@ def sweep_plans(base, rng, tier):
         # supplementary planes whose high surrogate is not D8xx (planes 5..16), alone and straddling the 15-unit cut
         "plane5": [0x50000], "plane16": [0x10ffff], "cut14_plane5": [65 + i for i in range(14)] + [0x50000], "cut14_plane16": [65 + i for i in range(14)] + [0x10ffff],
         "cut13_plane16": [65 + i for i in range(13)] + [0x10ffff, 66], "plane9x8": [0x90000] * 8, "plane1_cut14": [65 + i for i in range(14)] + [0x1f600],
+        # white space of every kind in front, behind, inside, alone: a fixed-size field keeps its size
+        "lead_space": [32, 97, 98], "lead_tab": [9, 97], "lead_nbsp": [0xa0, 97, 98, 99], "lead_ideographic": [0x3000, 0x3000, 26085], "trail_space": [97, 98, 32, 32],
+        "inner_space": [97, 32, 98], "all_blank": [32, 32, 32], "blank15": [32] * 15, "lead_space16": [32] + [65 + i for i in range(15)], "newline": [10, 97, 13],
     }
     plans = []
     k = 0
@@ -45,7 +51,7 @@ def sweep_plans(base, rng, tier):
                 p["srv"]["blocks"].setdefault("core_opt", 2); p["srv"]["blocks"].setdefault("with_security", True); p["srv"]["blocks"].setdefault("order", ["core", "sec", "net"])
                 w, h = rng.choice([(0, 0), (1, 1), (800, 600), (4096, 2048), (65535, 65535)])
                 c["w"], c["h"] = w, h
-                c["layout"] = rng.choice(["us", "fr", "de"])
+                c["layout"] = LAYOUTS[k % len(LAYOUTS)]
                 p["srv"]["uid"] = rng.choice([1001, 1002, 1004, 1007, 0x7fff, 0x8000, 0xfffe, 0xffff, rng.choice([u for u in (rng.randrange(1001, 65536), 1005) if u != 1003])])
                 plans.append(p)
                 k += 1
